@@ -47,6 +47,9 @@ ASSUMPTIONS = [
     "index tuples are explored up to rank (2,2) (thorough: (3,3) samples) over a pool of 6 (thorough 8) abstract indices",
     "the diagonal of a bra-ket antisymmetric tensor (upper group == lower group, bra_ket_sym=-1) is mathematically zero; "
     "the constructor keeps it as an object - not counted as a forced zero here (reported separately)",
+    "bra-ket partners are only required to be identified when the two groups differ in (space, spin, name) of some "
+    "index: for two distinct Index objects with the same name, space and spin (possible because Index is a Dummy) "
+    "the comparison has no preference and d^{i}_{i'} / d^{i'}_{i} stay distinct (reported separately)",
     "Expr invariants the reference state machine relies on: `terms` enumerates the summands of the current content, the "
     "Term/Obj wrappers read the assumptions of the owning Expr at the time of the call",
 ]
@@ -59,8 +62,8 @@ TENSOR_CLASSES = ("AntiSymmetricTensor", "Amplitude", "SymmetricTensor")
 _counter = itertools.count(1)
 
 
-def _ix(space, spin, name, dummy=None):
-    o = Obj(None, f"{name}{'_' + spin if spin else ''}[{space[0]}]")
+def _ix(space, spin, name, dummy=None, tag=""):
+    o = Obj(None, f"{name}{'_' + spin if spin else ''}[{space[0]}]{tag}")
     o.attrs.update(space=space, spin=spin, name=name, dummy_index=next(_counter) if dummy is None else dummy,
                    _classes=("Index", "Dummy", "Symbol"))
     return o
@@ -115,15 +118,26 @@ def _has_term(v):
     return False
 
 
+def _new(sx, a, kw):
+    """The object allocation of sympy (``super().__new__(cls, *args)`` / ``Expr.__new__(cls, *args)``)."""
+    if a and isinstance(a[0], Obj) and a[0].name == "super":
+        a = a[1:]
+    return T("new", tuple(_freeze(x) for x in a), tuple(sorted(kw.items())))
+
+
 def _super(sx, a, kw):
     o = Obj(None, "super")
-    o.attrs["__new__"] = lambda sx_, a_, kw_: T("new", tuple(_freeze(x) for x in a_), tuple(sorted(kw_.items())))
+    o.attrs["__new__"] = _new
     return o
+
+
+def _symbol(sx, a, kw):
+    return a[0] if len(a) == 1 and isinstance(a[0], str) and not kw else NotImplemented
 
 
 def _tensor_sx(ctx, what, hooks=None):
     hk = {"_sort_anticommuting_fermions": _sort_fermions, "super": _super, "S": sk.S_OBJ,
-          "sympify": lambda sx, a, kw: a[0]}
+          "sympify": lambda sx, a, kw: a[0], "type": sk.type_hook, "__new__": _new, "Symbol": _symbol}
     hk.update(hooks or {})
     return Symex(ctx.model, inline=lambda q: True, hooks=hk, what=what)
 
@@ -142,6 +156,9 @@ def _decode_new(v):
     sign = 1
     if isinstance(v, T) and v.op == "mul" and len(v.args) == 2 and v.args[0] == -1:
         sign, v = -1, v.args[1]
+    if isinstance(v, T) and v.op == "call" and isinstance(v.args[0], T) and v.args[0].op == "attr" \
+            and v.args[0].args[1] == "__new__":
+        v = T("new", v.args[1], v.args[2])          # <BaseClass>.__new__(cls, ...)
     if not (isinstance(v, T) and v.op == "new" and len(v.args[0]) == 5 and not v.args[1]):
         return None
     cls, name, up, lo, bks = v.args[0]
@@ -211,7 +228,7 @@ def _pool(tier):
     p = [_ix("occ", "", "i"), _ix("occ", "", "j"), _ix("virt", "", "a"), _ix("occ", "a", "i"), _ix("general", "", "p"),
          _ix("occ", "", "i1")]
     if tier == "thorough":
-        p += [_ix("virt", "b", "a"), _ix("occ", "", "i")]     # a second, distinct dummy named i
+        p += [_ix("virt", "b", "a"), _ix("occ", "", "i", tag="#2")]     # a second, distinct dummy named i
     return p
 
 
@@ -252,14 +269,14 @@ def r06b(ctx):
         ranks = [(1, 1)]
         samples = {}
         if impl not in seen or thorough:
-            samples[(2, 2)] = pool if thorough else pool[:4]
+            samples[(2, 2)] = pool if thorough else pool[:5]
         else:
             samples[(2, 2)] = pool[:3]
         if thorough:
             ranks.append((2, 1))
             samples[(3, 3)] = pool[:3] + pool[5:6]
         seen[impl] = cname
-        n_eval = 0
+        n_eval = n_twins = 0
         bad = {}
 
         def flag(kind, msg):
@@ -331,7 +348,10 @@ def r06b(ctx):
                                  f"{'+' if s2 > 0 else '-'}T: relative sign {s2 * sign:+d}, the permutation symmetry prescribes {want:+d}")
                 # bra-ket partner
                 o2 = table.get((kl, ku)) if nu == nl else None
-                if o2 is not None and o2[2] != 0:
+                twins = sorted(map(_ikey, up)) == sorted(map(_ikey, lo)) and not _is_perm(up, lo)
+                if twins:
+                    n_twins += 1        # distinct indices with equal (space, spin, name): see ASSUMPTIONS
+                elif o2 is not None and o2[2] != 0:
                     s2, cu2, cl2 = o2[2][:3]
                     if bks == 0:
                         if _same_objs(cu, cu2) and _same_objs(cl, cl2) and not (_is_perm(up, lo)):
@@ -408,14 +428,15 @@ def _new_scenarios(ctx, cls_name, antisym: bool):
             return list(which(sx.iterate(a[0], None)))
 
         def need_swap(sx, a, kw, need=need):
-            log["swap"].append((tuple(a[0]), tuple(a[1])))
+            u, l = (kw["upper"], kw["lower"]) if "upper" in kw and "lower" in kw else \
+                (a[-1], kw["lower"]) if "lower" in kw else (a[-2], a[-1])
+            log["swap"].append((tuple(sx.iterate(u, None)), tuple(sx.iterate(l, None))))
             return need
-        sx = _tensor_sx(ctx, f"{cls_name}.__new__", {"_sort_anticommuting_fermions": sort_fermions, "sorted": sorted_})
+        sx = _tensor_sx(ctx, f"{cls_name}.__new__", {"_sort_anticommuting_fermions": sort_fermions, "sorted": sorted_,
+                                                     "_need_bra_ket_swap": need_swap})
 
         def make():
-            cls = Obj(None, cls_name)
-            cls.attrs["_need_bra_ket_swap"] = need_swap
-            return dict(cls=cls, name="T", upper=up, lower=lo, bra_ket_sym=bks)
+            return dict(cls=Obj(f"{SO}:{cls_name}", cls_name), name="T", upper=up, lower=lo, bra_ket_sym=bks)
         outs = sx.run(fn, make)
         n += 1
         label = (f"parity_u={sign_u} parity_l={sign_l} swap_needed={need} bra_ket_sym={bks} all_Index={all_index}")
@@ -453,12 +474,11 @@ def _new_scenarios(ctx, cls_name, antisym: bool):
     # invalid symmetry refused
     ident = {"_sort_anticommuting_fermions": lambda sx, a, kw: (list(sx.iterate(a[0], None)), 0),
              "sorted": lambda sx, a, kw: list(sx.iterate(a[0], None))}
+    ident["_need_bra_ket_swap"] = lambda sx_, a, kw: False
     sx = _tensor_sx(ctx, f"{cls_name}.__new__", ident)
 
     def make2(bks, up):
-        cls = Obj(None, cls_name)
-        cls.attrs["_need_bra_ket_swap"] = lambda sx_, a, kw: False
-        return dict(cls=cls, name="T", upper=tuple(up), lower=tuple(L0), bra_ket_sym=bks)
+        return dict(cls=Obj(f"{SO}:{cls_name}", cls_name), name="T", upper=tuple(up), lower=tuple(L0), bra_ket_sym=bks)
     outs = sx.run(fn, lambda: make2(2, U0))
     ctx.check(rule, fn, all(o.kind == "raise" for o in outs), "bra_ket_sym=2 refused", "invalid bra-ket symmetry accepted",
               key="invalid bks")
@@ -516,12 +536,11 @@ def r06d(ctx):
         if attr == "is_zero" and isinstance(obj, T):
             return _linear_zero(obj)
         return NotImplemented
-    hooks = {"fuzzy_not": lambda sx, a, kw: (None if a[0] is None else not a[0]), "S": sk.S_OBJ}
+    def cls(sx_, a, kw):
+        return T("delta", tuple(_freeze(x) for x in a)) if not kw else NotImplemented
+    hooks = {"fuzzy_not": lambda sx, a, kw: (None if a[0] is None else not a[0]), "S": sk.S_OBJ, "KroneckerDelta": cls}
     sx = Symex(ctx.model, inline=lambda q: True, hooks=hooks, what="KroneckerDelta.eval", attr_hook=attr_hook)
     fn = ctx.model.fn(f"{SO}:KroneckerDelta.eval")
-
-    def cls(sx_, a, kw):
-        return T("delta", tuple(_freeze(x) for x in a))
 
     def run(i, j):
         outs = sx.run(fn, lambda: dict(cls=cls, i=i, j=j))
@@ -576,7 +595,7 @@ def _run_power(ctx, pw, pos, neg, minus_one):
         args.S = s
         return dict(self=Obj(None, "delta"), exp=e)
 
-    sx = Symex(ctx.model, inline=lambda q: True, what="_eval_power")
+    sx = Symex(ctx.model, inline=lambda q: True, what="_eval_power", hooks=sk._arith_hooks())
     proxy = Obj(None, "S")
     sx.hooks["S"] = proxy
 
@@ -656,7 +675,7 @@ def _compare_state(ctx, rule, fn, what, o, me, want, key, returns_self=True):
         ctx.bad(rule, fn, f"{what}: raises {o.exc}", key=key)
         return
     got = ExprState.of(me)
-    d = ["state destroyed"] if got is None else want.diff(got)
+    d = ["state destroyed"] if got is None else want.diff(got, N_TERMS)
     ctx.check(rule, fn, not d, f"{what}: state as the reference prescribes ({want.text()[:150]})",
               f"{what}: {', '.join(d)} differ(s): got {got.text() if got else '-'}; expected {want.text()}", key=key)
 
@@ -666,6 +685,13 @@ def _path_tag(o):
 
 
 N_TERMS = 2
+
+
+def _canonical_state(sx, real, sym_tensors, antisym_tensors):
+    """An Expr state that satisfies the class invariant: the content carries the declared symmetry already."""
+    st = ExprState(sym("E0"), real, sym_tensors, antisym_tensors, None)
+    st.expr = sk.canonical_content(sx, st, N_TERMS)
+    return st
 
 
 def expr_machine(ctx, only=None):
@@ -679,7 +705,7 @@ def expr_machine(ctx, only=None):
     for real, st_, anti in itertools.product((False, True), sets, ((), ("y",))):
         if real and not set(fv) <= set(st_):
             continue           # unreachable state: real expressions always declare fock and eri
-        start = ExprState(sym("E"), real, st_, anti, None)
+        start = _canonical_state(sx, real, st_, anti)
         for o, me in sk.run_method(sx, fn, lambda: (start.obj(), {})):
             want = start.copy()
             Ref(ctx, sx, o, N_TERMS).make_real(want)
@@ -723,7 +749,7 @@ def expr_machine(ctx, only=None):
             if real and not set(fv) <= set(cur) and field == "sym":
                 continue
             st_, anti = (cur, ()) if field == "sym" else ((f_, v_) if real else (), cur)
-            start = ExprState(sym("E"), real, st_, anti, None)
+            start = _canonical_state(sx, real, st_, anti)
             for arg in (list(names), tuple(names)):
                 for o, me in sk.run_method(sx, fn, lambda: (start.obj(), {param: arg})):
                     want = start.copy()
@@ -733,7 +759,7 @@ def expr_machine(ctx, only=None):
                                    f"{list(anti)}", o, me, want, key=f"{meth} {real} {cur} {names} {type(arg).__name__} {_path_tag(o)}")
         start = ExprState(sym("E"), False, (), (), None)
         res = sk.run_method(sx, fn, lambda: (start.obj(), {param: ["x", 1]}))
-        ctx.check("R06f", fn, all(o.kind == "raise" for o, _ in res) and all(ExprState.of(me).same(start) for _, me in res),
+        ctx.check("R06f", fn, all(o.kind == "raise" for o, _ in res) and all(ExprState.of(me).same(start, N_TERMS) for _, me in res),
                   f"{meth} refuses names that are not strings", f"{meth}(['x', 1]) is accepted or changes the state",
                   key=f"{meth} guard")
     # --- __init__
@@ -818,6 +844,24 @@ def _split_pow(v):
 KINDS = ("AntiSymmetricTensor", "Amplitude", "SymmetricTensor", "NonSymmetricTensor", "KroneckerDelta")
 
 
+def _independent(sx, fn, state, cur, make):
+    """Premise of the recorded calls (skeleton.DEPENDS), verified by differential evaluation: the raw value of the Obj
+    method is the same under assumptions that differ only in what it is declared not to depend on."""
+    method = fn.name
+    deps = sk.DEPENDS.get(method, sk.ALL_DEPS)
+    alt = ExprState(state.expr, state.real if "real" in deps else not state.real,
+                    state.sym if "sym_tensors" in deps else set(state.sym) ^ {"x", "q"},
+                    state.anti if "antisym_tensors" in deps else set(state.anti) ^ {"y", "r"}, ["k"])
+    res = []
+    for st in (state, alt):
+        cur["state"] = st
+        res.append([(o.kind, repr(_freeze(o.value)) if o.kind == "return" else o.exc) for o, _ in sk.run_method(sx, fn, make)])
+    cur["state"] = state
+    if res[0] != res[1]:
+        raise AnalysisError(f"R06e: the raw value of Obj.{method} depends on assumptions other than {list(deps)}: "
+                            f"{res[0]} vs {res[1]} (premise of the evaluated skeleton)")
+
+
 def obj_level(ctx):
     sx = sk.container_sx(ctx, "Obj level")
     tn = sk.tensor_names_obj(ctx.model)
@@ -827,6 +871,7 @@ def obj_level(ctx):
     fn = ctx.model.fn(f"{EC}:Obj._apply_tensor_braket_sym")
     for kind, name, bks, expo, rs in itertools.product(KINDS, ("x", "y", "z"), (0, 1, -1), expos, (True, False)):
         state = ExprState(sym("E"), False, ("x",), ("y",), None)
+        cur = {"state": state}
         is_ast = kind in TENSOR_CLASSES
         if not is_ast and bks != 0:
             continue
@@ -838,7 +883,9 @@ def obj_level(ctx):
             base = _tensor(sx, kind, name, bks)
             content = _wrap_pow(base, expo)
             made["base"], made["content"] = base, content
-            return _container_obj(state.obj("expr"), content), dict(return_sympy=rs)
+            return _container_obj(cur["state"].obj("expr"), content), dict(return_sympy=rs)
+        if rs:
+            _independent(sx, fn, state, cur, make)
         for o, me in sk.run_method(sx, fn, make):
             label = f"{kind} {name!r} (declared: sym x, antisym y) bra_ket_sym={bks} exponent={show(expo)} {'raw' if rs else 'wrapped'}"
             if o.kind != "return":
@@ -880,15 +927,18 @@ def obj_level(ctx):
         if kind != "Amplitude" and (bks or name != "f"):
             continue        # names of t-amplitudes belong to Amplitude objects
         state = ExprState(sym("E"), False, ("x",), (), None)
+        cur = {"state": state}
         made = {}
 
         def make():
             base = _tensor(sx, kind, name, bks)
             content = _wrap_pow(base, expo)
             made["base"], made["content"] = base, content
-            return _container_obj(state.obj("expr"), content), dict(return_sympy=rs)
+            return _container_obj(cur["state"].obj("expr"), content), dict(return_sympy=rs)
         m = re.fullmatch(re.escape(t) + r"(\d*)(c+)", name)
         new = (t + m.group(1)) if (m and kind != "KroneckerDelta") else None
+        if rs:
+            _independent(sx, fn, state, cur, make)
         for o, me in sk.run_method(sx, fn, make):
             label = f"{kind} {name!r} bra_ket_sym={bks} exponent={show(expo)} {'raw' if rs else 'wrapped'}"
             if o.kind != "return":
@@ -922,13 +972,16 @@ def obj_level(ctx):
         if kind not in TENSOR_CLASSES and bks:
             continue
         state = ExprState(sym("E"), True, ("V", "f"), ("y",), None)
+        cur = {"state": state}
         made = {}
 
         def make():
             base = _tensor(sx, kind, name, bks)
             content = _wrap_pow(base, expo)
             made["base"], made["content"] = base, content
-            return _container_obj(state.obj("expr"), content), dict(current="a", new="b", return_sympy=rs)
+            return _container_obj(cur["state"].obj("expr"), content), dict(current="a", new="b", return_sympy=rs)
+        if rs:
+            _independent(sx, fn, state, cur, make)
         for o, me in sk.run_method(sx, fn, make):
             label = f"{kind} {name!r} -> rename('a','b') bra_ket_sym={bks} exponent={show(expo)} {'raw' if rs else 'wrapped'}"
             if o.kind != "return":
